@@ -223,7 +223,14 @@ class G:
                     args[0] = ("pos", ("call", r.choice(bufd)["name"]))
             nested = []
             if d["cn_names"]:
-                nested.append({"name": "nx", "sig": [], "body": [("T", "<nx:"), ("V", r.choice(avail)), ("T", ">")], "nested": []})
+                nx = {"name": "nx", "sig": [], "body": [("T", "<nx:"), ("V", r.choice(avail)), ("T", ">")], "nested": []}
+                if r.random() < 0.4:
+                    # its default reads a context variable mentioned nowhere else (evaluated where the call is written)
+                    nx["sig"] = [("cz", "cdefault", None)]
+                    nx["body"] = nx["body"][:-1] + [("T", ","), ("V", "cz"), ("T", ">")]
+                if r.random() < 0.3:
+                    nx["decorator"] = True   # the callee still reaches it as caller.nx
+                nested.append(nx)
             more = {"kwonly": (["*", "k9"], ["k9"]), "kwargs": (["**kwb"], ["kwb"])}.get(d.get("cb_more"), ([], []))
             body = self.nodes(depth + 1, cdefs, avail + d["cb_keys"] + more[1], in_def, None)
             if more[1]:
